@@ -13,11 +13,21 @@ export VERIF_ROOT="$here"
 cd "$here/harness" || exit 2
 mkdir -p bin
 
+# VERIF_REPO (self-tests only): build against a scratch copy of the repository instead of /repo
+modflag=""
+suffix=""
+if [ -n "${VERIF_REPO:-}" ]; then
+  suffix=".alt$$"
+  sed "s#=> /repo#=> ${VERIF_REPO}#" go.mod > "bin/alt$$.mod"
+  modflag="-modfile=bin/alt$$.mod"
+  trap 'rm -f "$here/harness/bin/alt$$.mod" "$here/harness/bin/alt$$.sum" "$here/harness/bin/twcheck$suffix" "$here/harness/bin/twcheck-race$suffix"' EXIT
+fi
+
 build() { # $1 = output, rest = extra flags
   local out="$1"; shift
-  if ! go build -tags verif "$@" -o "$out" ./cmd/twcheck 2>"$here/harness/bin/build.log"; then
+  if ! go build -tags verif $modflag "$@" -o "$out" ./cmd/twcheck 2>"$here/harness/bin/build$suffix.log"; then
     echo "BUILD FAILED (harness against /repo's working tree):" >&2
-    cat "$here/harness/bin/build.log" >&2
+    cat "$here/harness/bin/build$suffix.log" >&2
     return 1
   fi
 }
@@ -38,12 +48,13 @@ case "$cmd" in
     id="$cmd"
     tier="${2:-${VERIF_TIER:-quick}}"
     seed="${VERIF_SEED:-0}"
-    bin=bin/twcheck
+    bin=bin/twcheck$suffix
     if [ "$id" = "C15" ]; then
-      build bin/twcheck-race -race || exit 2; bin=bin/twcheck-race
+      build bin/twcheck-race$suffix -race || exit 2; bin=bin/twcheck-race$suffix
     else
-      build bin/twcheck || exit 2
+      build bin/twcheck$suffix || exit 2
     fi
+    if [ -n "$suffix" ]; then "$bin" run "$id" "$tier" "$seed"; exit $?; fi
     exec "$bin" run "$id" "$tier" "$seed" ;;
   *)
     echo "usage: run.sh <ID> quick|thorough | replay <file> | build" >&2
